@@ -6,6 +6,7 @@ with the same toolchain and (c) what the two binaries print.
 """
 import hashlib
 import os
+import re
 import shutil
 import subprocess
 import threading
@@ -300,18 +301,37 @@ def code_lines(data):
     return b"\n".join(out)
 
 
+def _standalone_use(tree, header):
+    """What a translation unit that includes only this header may at least do with it: a unit
+    header lets one make, add, read back and label a quantity of its unit; a constant header lets
+    one scale the constant.  (A header can compile on its own and still be unusable on its own -
+    e.g. because what it names is only forward-declared there.)"""
+    if tree is None:
+        return ""
+    m = re.match(r"au/units/(\w+)\.hh$", header)
+    if m and not header.endswith("_fwd.hh") and tree.unit_types.get(m.group(1)):
+        ty = tree.unit_types[m.group(1)][0]
+        return (" constexpr auto q = au::make_quantity<au::%s>(3); static_assert((q + q).in(au::%s{}) == 6, \"\");"
+                " if (au::unit_label(au::%s{})[0] == 0) { return 1; }" % (ty, ty, ty))
+    m = re.match(r"au/constants/(\w+)\.hh$", header)
+    if m and not header.endswith("_fwd.hh") and tree.constant_names.get(m.group(1)):
+        return " const auto x = 2.0 * au::%s; (void)x;" % tree.constant_names[m.group(1)]
+    return ""
+
+
 def judge_header_alone(builder, header, tc):
     """Clause (c) sample: a public header, included as the very first thing of a translation unit
     (and once more, for its guard), under one compiler x standard configuration.  A failure only
     counts if the same header compiles when au/au.hh precedes it - then what is missing is an
     include of its own, not, say, a dependency on a test framework."""
-    alone = builder.syntax_only('#include "%s"\n#include "%s"\nint main() { return 0; }\n' % (header, header), tc)
+    use = _standalone_use(getattr(builder, "tree", None), header)
+    alone = builder.syntax_only('#include "%s"\n#include "%s"\nint main() {%s return 0; }\n' % (header, header, use), tc)
     detail = {"header": header, "toolchain": toolchain_id(tc), "alone": alone}
     if alone.get("harness_error"):
         return "HARNESS", detail
     if alone["ok"]:
         return None, detail
-    after = builder.syntax_only('#include "au/au.hh"\n#include "%s"\nint main() { return 0; }\n' % header, tc)
+    after = builder.syntax_only('#include "au/au.hh"\n#include "%s"\nint main() {%s return 0; }\n' % (header, use), tc)
     detail["after_au_hh"] = after
     if after.get("harness_error"):
         return "HARNESS", detail
